@@ -502,7 +502,7 @@ func genRaw(t *rapid.T, conn int) stepT {
 	r := &rawT{
 		MsgType: rapid.SampledFrom([]string{"MSG", "MSG", "MSG", "MSG", "OPN", "CLO", "HEL", "ACK", "ERR", "RHE", "XXX", "msg"}).Draw(t, "msgType"),
 		Chunk:   rapid.SampledFrom([]string{"F", "F", "F", "C", "A", "X", "\x00"}).Draw(t, "chunk"),
-		Size:    rapid.SampledFrom([]string{"exact", "exact", "exact", "short", "long", "zero", "seven", "huge"}).Draw(t, "size"),
+		Size:    rapid.SampledFrom([]string{"exact", "exact", "exact", "short", "long", "zero", "seven", "huge", "hdr8", "hdr9", "hdr11", "hdr12", "hdr15"}).Draw(t, "size"),
 		Chan:    rapid.SampledFrom([]string{"valid", "valid", "valid", "zero", "plus1", "random"}).Draw(t, "chan"),
 		Tok:     rapid.SampledFrom([]string{"valid", "valid", "valid", "zero", "plus1"}).Draw(t, "tok"),
 		Seq:     rapid.SampledFrom([]string{"next", "next", "next", "zero", "repeat", "max"}).Draw(t, "seq"),
